@@ -3,7 +3,9 @@
    'last' trackers are compared exactly; for 'best' trackers any result tied with the model's
    (equal optimizer-domain objective, also a candidate) is accepted (DESIGN 3: ties), and the
    property predicate itself (held result is a candidate whose objective is <= every candidate
-   delivered so far; nothing held iff there is no candidate) is evaluated on the observation. *)
+   delivered so far; nothing held iff there is no candidate) is evaluated on the observation.
+   Handlers live on plans (c_plan), events name the chain of plans they pass through (e_path):
+   trackers of nested plans are checked with the same definitions. *)
 From Coq Require Import QArith ZArith List Bool Arith String.
 From Ropt Require Import Base.Num Base.ListX Model.Tracker.
 Import ListNotations.
@@ -16,21 +18,32 @@ Record case := {
                                                  Some r = identity of the retained result (or nothing) *)
 }.
 
-(* candidates (identity, optimizer-domain facet) contributed by one operation; a Put restarts the list *)
-Definition seen_after (cfg : config) (seen : list (nat * facet)) (o : op) : list (nat * facet) :=
+(* candidates (identity, facet compared) contributed by one operation; a Put restarts the list: the
+   object placed with Plan.set is compared through its own facet, or -- when it is the object the handler
+   already holds -- through the optimizer-domain partner it was delivered with (st' = state after o) *)
+Definition seen_after (cfg : config) (st' : state) (seen : list (nat * facet)) (o : op) : list (nat * facet) :=
   match o with
   | Emit ev => seen ++ map (fun p : item * facet => (i_id (fst p), snd p))
                            (filter (candidate (c_tol cfg)) (delivered cfg [ev]))
-  | Put (Some (i, f)) => [(i, f)]
+  | Put (Some (i, f)) => match resync st' with Some (_, _, t) => [(i, t)] | None => [(i, f)] end
   | Put None => []
   end.
 
-(* the property predicate on the observation *)
+(* the property predicate on the observation: the held identity belongs to a candidate whose compared
+   objective is <= that of every candidate (written with the running minimum: linear in the history) *)
+Definition min_oval (seen : list (nat * facet)) : option Q :=
+  fold_left (fun (m : option Q) (c : nat * facet) =>
+               match m with
+               | None => Some (oval (snd c))
+               | Some q => if Qltb (oval (snd c)) q then Some (oval (snd c)) else Some q
+               end) seen None.
 Definition prop_ok (seen : list (nat * facet)) (ob : option nat) : bool :=
   match ob with
   | None => match seen with [] => true | _ => false end
-  | Some oid => existsb (fun c : nat * facet => Nat.eqb (fst c) oid &&
-                           forallb (fun c' : nat * facet => Qleb (oval (snd c)) (oval (snd c'))) seen) seen
+  | Some oid => match min_oval seen with
+                | None => false
+                | Some m => existsb (fun c : nat * facet => Nat.eqb (fst c) oid && Qleb (oval (snd c)) m) seen
+                end
   end.
 
 (* model state vs observation, ties accepted *)
@@ -49,7 +62,7 @@ Fixpoint best_ok (cfg : config) (st : state) (seen : list (nat * facet)) (ops : 
   | [], [] => true
   | o :: ops', ob :: obs' =>
       let st' := step cfg st o in
-      let seen' := seen_after cfg seen o in
+      let seen' := seen_after cfg st' seen o in
       match ob with
       | None => true
       | Some r => same_or_tie st' seen' r && prop_ok seen' r
@@ -81,16 +94,20 @@ Definition fn (v : option (list (option (list Q)))) : facet := fct true true Non
 Definition f0 (v : option (list (option (list Q)))) : facet := fct true false None v.              (* functions is None *)
 Definition gg : facet := fct false false None None.                                                 (* GradientResults *)
 Definition itm (id : nat) (u t : facet) : item := {| i_id := id; i_u := u; i_t := t |}.
-Definition evt (ty : Z) (src : nat) (hr ht : bool) (items : list item) : op :=
-  Emit {| e_type := ty; e_src := src; e_has_results := hr; e_has_transformed := ht; e_items := items |}.
+Definition evp (path : list nat) (ty : Z) (src : nat) (hr ht : bool) (items : list item) : op :=
+  Emit {| e_type := ty; e_src := src; e_path := path; e_has_results := hr; e_has_transformed := ht; e_items := items |}.
+Definition evt := evp [0%nat].                                  (* emitted on the (only / outermost) plan 0 *)
 Definition put (id : nat) (u : facet) : op := Put (Some (id, u)).
-Definition cfgc (w : what) (tol : option Q) (srcs : list nat) : config :=
-  {| c_what := w; c_tol := tol; c_sources := srcs |}.
+Definition cfgp (plan : nat) (w : what) (tol : option Q) (srcs : list nat) : config :=
+  {| c_what := w; c_tol := tol; c_sources := srcs; c_plan := plan |}.
+Definition cfgc := cfgp 0.
 Definition hu : option (option nat) := None.                    (* not observed *)
 Definition hn : option (option nat) := Some None.               (* nothing held *)
 Definition hs (n : nat) : option (option nat) := Some (Some n).
 Arguments qd n%Z k%N.
 Arguments itm id%nat u t.
+Arguments evp path%list ty%Z src%nat hr ht items.
 Arguments evt ty%Z src%nat hr ht items.
+Arguments cfgp plan%nat w tol srcs.
 Arguments put id%nat u.
 Arguments hs n%nat.
